@@ -2206,6 +2206,12 @@ def rule_saved(repo):
             if not (isinstance(tup, ast.Tuple) and len(tup.elts) == 2):
                 raise AnalysisError(f"R-C15-saved: {L} is not built from pairs ({norm(tup)})")
             first, second = tup.elts
+            if isinstance(st, ast.stmt):
+                # single-assignment locals holding the name string (`n = "top"+repr(x)[1:]; L.append((o, n))`)
+                for _ in range(3):
+                    if isinstance(second, ast.Name) and reaching_value(second.id, st) is not None and \
+                            _pure_value(reaching_value(second.id, st)):
+                        second = reaching_value(second.id, st)
             head, xvar, why = _name_template(second, root)
             shown = f"{L} element {norm(tup)}"
             if head is None or why:
@@ -2856,6 +2862,20 @@ def _canon(e):
     return norm(e)
 
 
+def _pure_value(e):
+    """may a single-assignment local bound to e be replaced by e?  (no call other than string building / builtin conversions)"""
+    for n in ast.walk(e):
+        if isinstance(n, ast.Call):
+            f = n.func
+            ok = (isinstance(f, ast.Attribute) and f.attr in ('join', 'format') and isinstance(f.value, ast.Constant)) or \
+                 (isinstance(f, ast.Name) and f.id in ('str', 'repr', 'len', 'int', 'tuple', 'list'))
+            if not ok:
+                return False
+        if isinstance(n, (ast.Yield, ast.Await, ast.NamedExpr)):
+            return False
+    return True
+
+
 class _Region:
     """one of the two sibling naming regions, with the renaming to canonical role names"""
     def __init__(self, mod, qual, fn, stmts, roles):
@@ -2874,8 +2894,7 @@ class _Region:
                     if bs and all(isinstance(b[2], ast.Attribute) and b[2].attr == 'elaborate_top' for b in bs):
                         return ast.copy_location(ast.Name(id='ELABTOP', ctx=n.ctx), n)
                     rv = reaching_value(n.id, at)
-                    if rv is not None and not isinstance(rv, (ast.Call,)) or \
-                            (rv is not None and _str_parts(rv) is not None):
+                    if rv is not None and _pure_value(rv) and not any(isinstance(x, ast.Name) and x.id == n.id for x in ast.walk(rv)):
                         return self.visit(_expand(rv, at))
                 return n
         return T().visit(_clone(e))
@@ -4134,6 +4153,18 @@ EQUIV = [
                 continue
               saved_connections.append( (other, "top"+repr(x)[1:]) ) # other is from outside
 """),
+    _m('setattr-index-suffix-in-a-local', NAMED, """            ud.my_name   = u_name = name + "".join( [ f"[{x}]" for x in indices ] )""",
+       """            idx_str = "".join( [ f"[{x}]" for x in indices ] )
+            u_name  = name + idx_str
+
+            ud.my_name   = u_name"""),
+    _m('add-index-suffix-in-a-local', COMP, """      obj._dsl.my_name    = u_name = name + "".join( [ f"[{x}]" for x in indices ] )""",
+       """      suffix = "".join( [ f"[{x}]" for x in indices ] )
+      u_name = name + suffix
+      obj._dsl.my_name    = u_name"""),
+    _m('saved-name-in-a-local', COMP, """              saved_connections.append( (other, "top"+repr(x)[1:]) ) # other is from outside""",
+       """              removed_end_name = "top"+repr(x)[1:]
+              saved_connections.append( (other, removed_end_name) )"""),
     _m('add-sets-via-update', COMP, "    top._dsl.all_signals       |= added_signals", "    top._dsl.all_signals.update( added_signals )"),
 ]
 
